@@ -247,6 +247,23 @@ struct StreamsHarness : vh::Harness {
   std::string at() {
     return " @" + std::to_string((ull)strm->Tell());
   }
+  // big files (ops `open filebig <len> <seed>`, `readh <n>`): content from a 64-bit LCG, results as FNV-1a hashes
+  static std::string lcg_bytes(uint64_t len, uint64_t seed) {
+    std::string o(len, '\0');
+    uint64_t x = seed;
+    for (uint64_t i = 0; i < len; ++i) {
+      x = x * 6364136223846793005ULL + 1442695040888963407ULL;
+      o[i] = static_cast<char>(x >> 56);
+    }
+    return o;
+  }
+  static std::string fnv_hex(const char *p, size_t n) {
+    uint64_t h = 14695981039346656037ULL;
+    for (size_t i = 0; i < n; ++i) h = (h ^ static_cast<unsigned char>(p[i])) * 1099511628211ULL;
+    char b[32];
+    snprintf(b, sizeof b, "%llx", (ull)h);
+    return b;
+  }
 
   std::string exec_store(const std::vector<std::string> &w) {
     if (w[0] == "dump" && w.size() == 1) {
@@ -277,6 +294,13 @@ struct StreamsHarness : vh::Harness {
         std::string dest(room, '\xEE');
         size_t ret = s->Read(&dest[0], n);
         return "r " + std::to_string((ull)ret) + " " + vh::hex(dest.substr(0, std::min<uint64_t>(ret, room))) + at();
+      }
+      if (w[0] == "readh" && w.size() == 2 && kind == kFile) {
+        uint64_t n = strtoull(w[1].c_str(), nullptr, 10);
+        if (n > (64u << 20)) return "bad-op";
+        std::string dest((size_t)n, '\xEE');
+        size_t ret = s->Read(&dest[0], n);
+        return "rh " + std::to_string((ull)ret) + " " + fnv_hex(dest.data(), std::min<uint64_t>(ret, n)) + at();
       }
       if (w[0] == "write" && w.size() == 2) {
         std::string bs = vh::unhex(w[1]);
@@ -432,6 +456,20 @@ struct StreamsHarness : vh::Harness {
         kind = kFile;
         return "ok";
       }
+      if (w.size() == 4 && w[1] == "filebig") {
+        // a file of <len> pseudo-random bytes (several MiB: requests larger than any internal piece size), opened "r+"
+        path = out_dir + "/c19_file.bin";
+        std::string b = lcg_bytes(strtoull(w[2].c_str(), nullptr, 10), strtoull(w[3].c_str(), nullptr, 10));
+        FILE *f = fopen(path.c_str(), "wb");
+        if (!f) { perror("tmp file"); exit(3); }
+        if (!b.empty() && fwrite(b.data(), 1, b.size(), f) != b.size()) { perror("tmp file"); exit(3); }
+        fclose(f);
+        dmlc::SeekStream *ss = dynamic_cast<dmlc::SeekStream *>(dmlc::Stream::Create(path.c_str(), "r+"));
+        if (!ss) { fprintf(stderr, "Stream::Create did not return a SeekStream\n"); exit(3); }
+        strm.reset(ss);
+        kind = kFile;
+        return "ok";
+      }
       if (w.size() == 3 && (w[1] == "filer" || w[1] == "filewo")) {
         // the other ways into LocalFileSystem::Open: a "file://" URI, mode "r" through SeekStream::CreateForRead
         // (`filer`: existing content, read only) and mode "w" through Stream::Create (`filewo`: truncated, write only)
@@ -480,6 +518,7 @@ struct StreamsHarness : vh::Harness {
     Ref r;
     r.kind = w0[1] == "memstr" ? kMemStr : w0[1] == "memfixed" ? kMemFixed : kFile;
     r.data = (w0[1] == "filew" || w0[1] == "filewo") ? std::string() : vh::unhex(w0[2]);
+    if (w0[1] == "filebig") r.data = lcg_bytes(strtoull(w0[2].c_str(), nullptr, 10), strtoull(w0[3].c_str(), nullptr, 10));
     bool closed = false;
     for (size_t i = 1; i < c.ops.size(); ++i) {
       auto w = vh::split_ws(c.ops[i]);
@@ -506,6 +545,11 @@ struct StreamsHarness : vh::Harness {
           r.cur = p;
           want = "ok @" + std::to_string((ull)p);
         }
+      } else if (w[0] == "readh" && w.size() == 2) {
+        uint64_t n = strtoull(w[1].c_str(), nullptr, 10);
+        uint64_t k = r.cur > len ? 0 : std::min<uint64_t>(n, len - r.cur);
+        want = "rh " + std::to_string((ull)k) + " " + fnv_hex(r.data.data() + (k ? r.cur : 0), k) + " @" + std::to_string((ull)(r.cur + k));
+        r.cur += k;
       } else if (w[0] == "read" && w.size() == 2) {
         uint64_t n = strtoull(w[1].c_str(), nullptr, 10);
         if (got == "ub:oob" && n > 0 && n > kTop - r.cur && r.kind == kMemFixed) cls = "memfixed-wrap-oob";
@@ -715,6 +759,7 @@ struct StreamsHarness : vh::Harness {
     if (c.ops.empty()) return;
     auto w0 = vh::split_ws(c.ops[0]);
     if (w0.size() < 3 || w0[0] != "open" || res[0] != "ok") return;
+    if (w0[1] == "filebig" && w0.size() == 4) { oracle_store(c, res, fail); return; }
     if (w0[1] == "memstr" || w0[1] == "memfixed" || w0[1] == "file" || w0[1] == "filew" || w0[1] == "filer" || w0[1] == "filewo")
       oracle_store(c, res, fail);
     else if (w0[1] == "ostream") oracle_ostream(c, res, fail);
@@ -978,6 +1023,32 @@ int main(int argc, char **argv) {
       }
       c.ops.push_back("close");
       c.ops.push_back("dump");
+      run(c);
+    }
+  }
+  // ---- (2c) files of several MiB, requests of more than a MiB (results compared as hashes) ----------------
+  {
+    const uint64_t MiB = 1u << 20;
+    size_t ncases = T ? 8 : 3;
+    for (size_t it = 0; it < ncases; ++it) {
+      Case c;
+      c.kind = "filebig random";
+      uint64_t len = it == 0 ? 2 * MiB + MiB / 2 : it == 1 ? 2 * MiB : MiB + 1 + rng.below(3 * MiB);
+      c.ops.push_back("open filebig " + U(len) + " " + U(rng.next() >> 1));
+      c.ops.push_back("readh " + U(4 * MiB));                 // one request for more than the whole file
+      c.ops.push_back("tell");
+      c.ops.push_back("readh 5");                             // at the end: 0 bytes
+      for (int j = 0; j < 6; ++j) {
+        uint64_t p = rng.below(len + 1);
+        c.ops.push_back("seek " + U(p));
+        c.ops.push_back("readh " + U(rng.chance(1, 2) ? MiB + rng.below(2 * MiB) : rng.below(3) * MiB + rng.below(7)));
+        c.ops.push_back("tell");
+      }
+      c.ops.push_back("seek " + U(len - 3));
+      c.ops.push_back("write 010203040506");                  // grows the file by 3 bytes
+      c.ops.push_back("seek " + U(MiB - 2));
+      c.ops.push_back("readh " + U(3 * MiB));
+      c.ops.push_back("close");
       run(c);
     }
   }
